@@ -95,7 +95,7 @@ func c07SetupDir(r *core.Run, sc c07Scen, seed int64, dir string) (*c07Ctx, erro
 		}
 		c.inputs = ps
 		c.outs = client.Outputs(rng, act.Id, client.Split(21))
-	case "melt", "poll", "checkstate":
+	case "melt", "poll", "checkstate", "swaplocked":
 		ps, err := env.FundOutputs(client.Outputs(rng, act.Id, []uint64{32, 16, 8}))
 		if err != nil {
 			return nil, err
@@ -130,7 +130,12 @@ func c07SetupDir(r *core.Run, sc c07Scen, seed int64, dir string) (*c07Ctx, erro
 			if _, err := env.Melt(c.meltQ, c.inputs); err != nil {
 				return nil, err
 			}
-			world.Resolve("m0", c.meltH, sc.final != "failed")
+			if sc.kind != "swaplocked" {
+				world.Resolve("m0", c.meltH, sc.final != "failed")
+			} else {
+				// the payment stays in flight while somebody tries to swap the locked inputs
+				c.outs = client.Outputs(rng, act.Id, client.Split(client.Sum(c.inputs)-client.FeeFor(c.inputs, env.Keysets)))
+			}
 		}
 	case "rotate":
 		ps, err := env.FundOutputs(client.Outputs(rng, act.Id, []uint64{16, 4, 1}))
@@ -151,7 +156,7 @@ func c07Op(sc c07Scen, c *c07Ctx) (delivered bool, sigs cashu.BlindedSignatures,
 	case "mint":
 		sigs, err = env.MintTokens(c.mintQ, client.BMs(c.outs), "")
 		return err == nil, sigs, "", err
-	case "swap":
+	case "swap", "swaplocked":
 		sigs, err = env.Swap(c.inputs, client.BMs(c.outs))
 		return err == nil, sigs, "", err
 	case "melt":
@@ -194,6 +199,7 @@ func runC07(r *core.Run) {
 		{name: "checkstate-resolves-paid", kind: "checkstate", final: "success"},
 		{name: "checkstate-resolves-failed", kind: "checkstate", final: "failed"},
 		{name: "rotate", kind: "rotate", quickFaults: true},
+		{name: "swap-of-inputs-locked-in-a-pending-melt", kind: "swaplocked", final: "success"},
 	}
 	type job struct {
 		sc   c07Scen
@@ -231,7 +237,7 @@ func runC07(r *core.Run) {
 		}
 		// the trace must contain the call the scenario is about; otherwise its set-up did not
 		// produce the situation (a resolution scenario whose melt is not pending has one boundary)
-		must := map[string]string{"mint": "SaveBlindSignatures", "swap": "SaveBlindSignatures", "poll": "OutgoingPaymentStatus", "checkstate": "OutgoingPaymentStatus", "rotate": "SaveKeyset", "melt": "SendPayment"}[sc.kind]
+		must := map[string]string{"mint": "SaveBlindSignatures", "swap": "SaveBlindSignatures", "poll": "OutgoingPaymentStatus", "checkstate": "OutgoingPaymentStatus", "rotate": "SaveKeyset", "melt": "SendPayment", "swaplocked": "GetPendingProofs"}[sc.kind]
 		if sc.internal {
 			must = "UpdateMintQuoteState"
 		}
@@ -258,14 +264,21 @@ func runC07(r *core.Run) {
 		if !r.Want(sig) {
 			return
 		}
-		c07Run(r, j.sc, j.mode, j.k, j.n, sig, int64(ji))
+		c07Run(r, j.sc, j.mode, j.k, j.n, sig, int64(ji), false)
+		if j.sc.kind == "melt" || j.sc.kind == "poll" || j.sc.kind == "checkstate" {
+			if xsig := sig + "/without-resubmission"; r.Want(xsig) {
+				c07Run(r, j.sc, j.mode, j.k, j.n, xsig, int64(ji)+100000, true)
+			}
+		}
 	})
 	if !quick(r) {
 		c07SigkillCrossCheck(r)
 	}
 }
 
-func c07Run(r *core.Run, sc c07Scen, mode string, k, n int, sig string, seed int64) {
+// exploit = true: the client after the restart does not send the interrupted request again but goes
+// straight for whatever can be realised (re-spend the inputs, spend restored outputs, mint the quote).
+func c07Run(r *core.Run, sc c07Scen, mode string, k, n int, sig string, seed int64, exploit bool) {
 	c, err := c07Setup(r, sc, r.Seed*100_000+seed)
 	if err != nil {
 		r.Inconclusive("setup: " + err.Error())
@@ -322,7 +335,7 @@ func c07Run(r *core.Run, sc c07Scen, mode string, k, n int, sig string, seed int
 		r.Violate(key, what, sig, map[string]any{"scenario": sc.name, "mode": mode, "k": k, "between": between, "observations": obs})
 	}
 	// ---- Lightning finishes what it had in flight (pending scenarios)
-	if sc.kind == "melt" && sc.plan.Answer == lnmodel.APending {
+	if (sc.kind == "melt" && sc.plan.Answer == lnmodel.APending) || sc.kind == "swaplocked" {
 		c.world.Resolve("m0", c.meltH, sc.final != "failed")
 	}
 	// ---- restart
@@ -405,6 +418,16 @@ func c07Run(r *core.Run, sc c07Scen, mode string, k, n int, sig string, seed int
 			inStates = append(inStates, s.State.String())
 		}
 		obs = append(obs, "input states "+strings.Join(inStates, ","))
+		// the melt's quote and inputs tell one story once the polls have settled (C05's statement, looked
+		// at after every crash and fault point): PAID with SPENT inputs, UNPAID with released ones
+		if c.meltQ != "" && (sc.kind == "melt" || sc.kind == "poll" || sc.kind == "checkstate") {
+			for _, is := range inStates {
+				if (meltState == "PAID" && is != "SPENT") || (meltState == "UNPAID" && is == "PENDING") {
+					viol("consistency", fmt.Sprintf("after the restart the melt quote polls to %s but its inputs are reported %v", meltState, inStates))
+					break
+				}
+			}
+		}
 	}
 	// ---- 2. restore
 	var po cashu.Proofs
@@ -449,7 +472,11 @@ func c07Run(r *core.Run, sc c07Scen, mode string, k, n int, sig string, seed int
 	}
 	_ = restoredSigs
 	// ---- 3. re-submission of the identical request
-	switch sc.kind {
+	kindNow := sc.kind
+	if exploit {
+		kindNow = "" // no re-submission
+	}
+	switch kindNow {
 	case "mint":
 		s3, err := env.MintTokens(c.mintQ, client.BMs(c.outs), "")
 		obs = append(obs, fmt.Sprintf("resubmit mint: %v", err))
@@ -460,7 +487,7 @@ func c07Run(r *core.Run, sc c07Scen, mode string, k, n int, sig string, seed int
 		} else if err == nil {
 			viol("safety", "the identical mint request succeeded again although its outputs were already signed")
 		}
-	case "swap":
+	case "swap", "swaplocked":
 		s3, err := env.Swap(c.inputs, client.BMs(c.outs))
 		obs = append(obs, fmt.Sprintf("resubmit swap: %v", err))
 		if err == nil && len(po) == 0 {
@@ -548,6 +575,16 @@ func c07Run(r *core.Run, sc c07Scen, mode string, k, n int, sig string, seed int
 		}
 		if f2+f3 < c.amount {
 			viol("atomicity", fmt.Sprintf("the quote was paid (%d) but only %d can be obtained after the restart", c.amount, f2+f3))
+		}
+	case "swaplocked":
+		if opErr == nil {
+			viol("safety", "a swap of inputs locked in a melt whose payment is in flight was accepted")
+		}
+		if lnOut > 0 && f1+f2 > 0 {
+			viol("safety", fmt.Sprintf("the invoice was paid (%d) and the inputs, or outputs obtained for them, were spent as well (%d + %d)", lnOut, f1, f2))
+		}
+		if lnOut > 0 && meltState != "PAID" {
+			viol("atomicity", "the invoice was paid but the melt quote polls to "+meltState)
 		}
 	case "melt", "poll", "checkstate":
 		if sc.internal {
